@@ -53,6 +53,30 @@ func genHW(t *rapid.T, i int, mode string) string {
 	return hex.EncodeToString(b)
 }
 
+// relativeHW derives a hardware address that shares its beginning with base
+func relativeHW(t *rapid.T, base string) string {
+	b, _ := hex.DecodeString(base)
+	b = append([]byte(nil), b...)
+	switch rapid.IntRange(0, 2).Draw(t, "rel-kind") {
+	case 0: // longer
+		if len(b) < 16 {
+			n := rapid.IntRange(1, 16-len(b)).Draw(t, "rel-more")
+			for i := 0; i < n; i++ {
+				b = append(b, byte(rapid.SampledFrom([]int{0, 0, 1, 0x99, 0xff}).Draw(t, "rel-byte")))
+			}
+		}
+	case 1: // shorter
+		if len(b) > 0 {
+			b = b[:rapid.IntRange(0, len(b)-1).Draw(t, "rel-less")]
+		}
+	default: // same length, another last byte
+		if len(b) > 0 {
+			b[len(b)-1] ^= byte(rapid.IntRange(1, 255).Draw(t, "rel-flip"))
+		}
+	}
+	return hex.EncodeToString(b)
+}
+
 func genStep(t *rapid.T, nclients int, allowRestart bool) Step {
 	k := rapid.IntRange(0, 9).Draw(t, "step-kind")
 	if allowRestart && k == 0 {
@@ -89,6 +113,11 @@ func GenCase(mode string) func(t *rapid.T) Case {
 		seen := map[string]bool{}
 		for i := 0; i < ncl; i++ {
 			hw := genHW(t, i, mode)
+			if len(c.Clients) > 0 && rapid.IntRange(0, 3).Draw(t, "hw-family") == 0 {
+				// a relative of an earlier client: the same bytes with a longer or shorter hlen, or
+				// another tail behind a common beginning (different addresses are different clients)
+				hw = relativeHW(t, rapid.SampledFrom(c.Clients).Draw(t, "hw-of"))
+			}
 			if seen[hw] {
 				continue // zero-length address can exist only once
 			}
